@@ -270,17 +270,24 @@ def handleExpireAt (_c : Ctx) (cmd : List Bytes) : Prog Res :=
       | some t => expireTail key cmd t (ex.headD false)
   | _ => .ret (.err wrongArgs)
 
-/-- common body of INCR/DECR/INCRBY/DECRBY (:393-:647): read, parse, add, store as decimal text -/
+def overflowErr : Bytes := b "increment or decrement would overflow"
+
+/-- common body of INCR/DECR/INCRBY/DECRBY (:393-:647): read, parse, add, store as decimal text. A result
+    outside the int64 range is refused before anything is stored (repaired in /repo by a `fix:` commit;
+    before it the sum wrapped around). `absent` is the value a missing key gets (DECRBY of the smallest
+    int64 has none inside the range), `f` the arithmetic on a stored integer. -/
 def incrCore (key : Bytes) (absent : Int) (f : Int → Int) : Prog Res :=
   .call (.getValues [key]) fun (vs : List Val) =>
-  let store (n : Int) : Prog Res := setOrErr [(key, .str (fmtInt n))] (.ret (.ok (intReply n)))
+  let store (n : Int) : Prog Res :=
+    if n < minInt64 || n > maxInt64 then .ret (.err overflowErr)
+    else setOrErr [(key, .str (fmtInt n))] (.ret (.ok (intReply n)))
   match vs.headD .nil with
   | .nil => store absent
   | .str s =>
     match parseInt64 s with
     | none => .ret (.err (b "value is not an integer or out of range"))
-    | some cur => store (wrap64 (f cur))
-  | .int cur => store (wrap64 (f cur))
+    | some cur => store (f cur)
+  | .int cur => store (f cur)
   | _ => .ret (.err (b "unexpected type for currentValue"))
 
 def handleIncr (_c : Ctx) (cmd : List Bytes) : Prog Res :=
@@ -306,7 +313,7 @@ def handleDecrBy (_c : Ctx) (cmd : List Bytes) : Prog Res :=
   | [_, key, n] =>
     match parseInt64 n with
     | none => .ret (.err (b "decrement value is not an integer or out of range"))
-    | some n => incrCore key (wrap64 (n * -1)) (· - n)
+    | some n => incrCore key (n * -1) (· - n)
   | _ => .ret (.err wrongArgs)
 
 /-- :539 handleIncrByFloat -/
